@@ -221,3 +221,126 @@ Proof. intros tag kids. reflexivity. Qed.
 
 Lemma erase_alg_transparent : await_transparent erase_alg.
 Proof. repeat split; intros; reflexivity. Qed.
+
+(* ---------- the hypotheses of canon_preserves / twins_denote_equal are jointly satisfiable by a
+   non-constant semantics: "does literal k occur in the tree" (A = bool).  It is compositional,
+   Await-transparent, and R1-R3 preserve it (R1 moves E, R2 replaces reads of v by a literal-free
+   path, R3 drops a literal-free test and one of two equal branches). ---------- *)
+Fixpoint has_lit (k : N) (t : tree) : bool :=
+  match t with
+  | Node _ kids => existsb (has_lit k) kids
+  | Lit j => N.eqb j k
+  | _ => false
+  end.
+Ltac break_match_hyp H :=
+  repeat match type of H with
+         | context [match ?t with _ => _ end] => destruct t eqn:?; try discriminate H
+         end.
+Ltac split_ands :=
+  repeat match goal with
+         | H : _ && _ = true |- _ => apply andb_true_iff in H; destruct H
+         end.
+Ltac eqb_to_eq :=
+  repeat match goal with
+         | H : tree_eqb _ _ = true |- _ => apply tree_eqb_eq in H
+         | H : trees_eqb _ _ = true |- _ => apply trees_eqb_eq in H
+         end.
+
+Lemma is_path_no_lit : forall k p, is_path p = true -> has_lit k p = false.
+Proof.
+  intro k. induction p as [tag kids IH | | |] using tree_ind'; try (intro H; discriminate H).
+  intro H. simpl in H. break_match_hyp H; split_ands; try discriminate; eqb_to_eq; subst.
+  all: simpl has_lit; simpl existsb.
+  all: try match goal with H : Node _ _ = ctx_load |- _ => inversion H; subst; reflexivity end.
+  inversion IH as [| ? ? Hhd _]; subst. specialize (Hhd H0). simpl in Hhd. rewrite Hhd. reflexivity.
+Qed.
+
+Lemma as_iscoro_test_eq : forall t v, as_iscoro_test t = Some v -> t = iscoro_test v.
+Proof.
+  intros t v H. unfold as_iscoro_test in H. break_match_hyp H.
+  inversion H; subst. apply tree_eqb_eq. assumption.
+Qed.
+
+Lemma has_lit_subst : forall k v r, has_lit k r = false ->
+  forall t, has_lit k (subst_name v r t) = has_lit k t.
+Proof.
+  intros k v r Hr. induction t as [tag kids IH | | |] using tree_ind'; try reflexivity.
+  cbn [subst_name]. destruct (tree_eqb (Node tag kids) (name_load v)) eqn:E.
+  - apply tree_eqb_eq in E. rewrite E. rewrite Hr. reflexivity.
+  - cbn [has_lit]. clear E. induction IH as [| x l Hx Hl IHl]; simpl; [reflexivity |]. rewrite Hx.
+    f_equal. apply IHl.
+Qed.
+
+Lemma has_lit_subst_list : forall k v r, has_lit k r = false ->
+  forall l, existsb (has_lit k) (map (subst_name v r) l) = existsb (has_lit k) l.
+Proof.
+  intros k v r Hr. induction l as [| x l IH]; simpl; [reflexivity |].
+  rewrite (has_lit_subst k v r Hr). rewrite IH. reflexivity.
+Qed.
+
+Lemma r3_lit : forall k x body, r3 x = Some body -> existsb (has_lit k) body = has_lit k x.
+Proof.
+  intros k x body H. unfold r3 in H. break_match_hyp H.
+  inversion H; subst body. split_ands. eqb_to_eq. subst.
+  match goal with H : as_iscoro_test _ = Some _ |- _ => apply as_iscoro_test_eq in H; subst end.
+  simpl. repeat rewrite orb_false_r.
+  destruct (has_lit k t2); destruct (existsb (has_lit k) l2); reflexivity.
+Qed.
+
+Lemma r1_lit : forall k x y rest z, r1 x y rest = Some z -> has_lit k z = has_lit k x || has_lit k y.
+Proof.
+  intros k x y rest z H. unfold r1 in H. break_match_hyp H.
+  inversion H; subst z. split_ands. eqb_to_eq. subst.
+  match goal with H : Node _ _ = Node T_Assign _ |- _ => inversion H; subst end.
+  match goal with H : Node _ _ = Node T_If _ |- _ => inversion H; subst end.
+  simpl. repeat rewrite orb_false_r.
+  repeat match goal with |- context [has_lit k ?t] => destruct (has_lit k t) end;
+  repeat match goal with |- context [existsb ?f ?l] => destruct (existsb f l) end; reflexivity.
+Qed.
+
+Lemma r2_lit : forall k x y rest z, r2 x y rest = Some z -> has_lit k z = has_lit k x || has_lit k y.
+Proof.
+  intros k x y rest z H. unfold r2 in H. break_match_hyp H.
+  inversion H; subst z. split_ands. eqb_to_eq. subst.
+  match goal with H : Node _ _ = Node T_Assign _ |- _ => rewrite H end.
+  match goal with H : Node _ _ = Node T_If _ |- _ => rewrite H end.
+  match goal with H : is_path ?p = true |- _ => pose proof (is_path_no_lit k p H) as Hp end.
+  assert (Hr : has_lit k (attr_load t6 k1) = false).
+  { simpl. rewrite Hp. reflexivity. }
+  cbn -[existsb map subst_name N.eqb]. simpl existsb.
+  rewrite (has_lit_subst_list k k0 _ Hr). rewrite Hp. simpl.
+  repeat rewrite orb_false_r.
+  destruct (K_None =? k); destruct (existsb (has_lit k) kids6); destruct (has_lit k t13); reflexivity.
+Qed.
+
+Lemma has_lit_rw_seq : forall k l, existsb (has_lit k) (rw_seq l) = existsb (has_lit k) l.
+Proof.
+  intros k. induction l as [| x rest IH]; [reflexivity |].
+  cbn [rw_seq]. destruct (r3 x) as [body |] eqn:E3.
+  - rewrite existsb_app. rewrite (r3_lit k x body E3). rewrite IH. reflexivity.
+  - destruct (rw_seq rest) as [| y rest''] eqn:Er.
+    + simpl in *. rewrite <- IH. reflexivity.
+    + destruct (r1 x y rest'') as [z |] eqn:E1.
+      * simpl. rewrite (r1_lit k x y rest'' z E1). rewrite <- IH. simpl. rewrite orb_assoc. reflexivity.
+      * destruct (r2 x y rest'') as [z |] eqn:E2.
+        -- simpl. rewrite (r2_lit k x y rest'' z E2). rewrite <- IH. simpl. rewrite orb_assoc. reflexivity.
+        -- simpl. rewrite <- IH. reflexivity.
+Qed.
+
+Definition has_lit_alg (tag : N) (l : list bool) : bool := existsb (fun b => b) l.
+
+Lemma existsb_map_id : forall (A : Type) (f : A -> bool) l, existsb (fun b => b) (map f l) = existsb f l.
+Proof. induction l; simpl; congruence. Qed.
+
+Lemma has_lit_compositional : forall k, compositional (has_lit k) has_lit_alg.
+Proof. intros k tag kids. simpl. unfold has_lit_alg. symmetry. apply existsb_map_id. Qed.
+
+Lemma has_lit_alg_transparent : await_transparent has_lit_alg.
+Proof. repeat split; intros; try reflexivity. unfold has_lit_alg. simpl. apply orb_false_r. Qed.
+
+Lemma has_lit_rewrites_sound : forall k, seq_rewrites_sound (has_lit k) has_lit_alg.
+Proof. intros k l. unfold has_lit_alg. rewrite !existsb_map_id. apply has_lit_rw_seq. Qed.
+
+Lemma has_lit_instance : forall k,
+  compositional (has_lit k) has_lit_alg /\ await_transparent has_lit_alg /\ seq_rewrites_sound (has_lit k) has_lit_alg.
+Proof. intro k. split; [apply has_lit_compositional | split; [apply has_lit_alg_transparent | apply has_lit_rewrites_sound]]. Qed.
